@@ -2,6 +2,8 @@
 // in : front N=10 [D=10] cbs=kd stop=1 kw=method:meth:Isomap,num_neighbors:int:3,landmark_ratio:real:3/10
 //        [via=chain:dk]   the request goes through tapkee::with(kw).withDistance(..).withKernel(..).embedRange(..)
 //                         (attachment order = the letters; must be a permutation of cbs) instead of tapkee::embed
+//        [via=chainusing:dk]  the same chain ended by the state's embedUsing(container) overload
+//        [emb=1]          append ` emb=<rows>x<cols>:<digest of the embedding bytes>` to the diagnostics
 //        [throwcb=kd]     these (supplied) callbacks throw `undeclared` when invoked
 // out: throw tapkee::wrong_parameter_error k=0 d=0 f=0 | echo=<ident>=<repr>;... | routes=k>k,d>d # raw=<k>,<d>,<f>
 //      (`ok …`, `reached distance …`, `throw undeclared:distance …`; routes = slot>role of every callback
@@ -12,6 +14,7 @@
 #include <tapkee/callbacks/dummy_callbacks.hpp>
 #include <tapkee/chain_interface.hpp>
 
+#include <cstring>
 #include <set>
 #include <unistd.h>
 
@@ -110,8 +113,11 @@ struct capture_logger : public LoggerImplementation
 typedef std::vector<IndexType>::iterator Iter;
 
 // the chain interface, every attachment order of the subset this binary supplies
+// FINISH: embedRange(begin, end) or the state's embedUsing(container) overload
+#define FINISH(chain) (use_container ? (chain).embedUsing(container) : (chain).embedRange(b, e))
 static TapkeeOutput via_chain(const std::string& order, const stichwort::ParametersSet& set, Iter b, Iter e,
-                              const universal_callback& K, const universal_callback& D, const universal_callback& F)
+                              const std::vector<IndexType>& container, bool use_container, const universal_callback& K,
+                              const universal_callback& D, const universal_callback& F)
 {
     (void)K;
     (void)D;
@@ -122,41 +128,41 @@ static TapkeeOutput via_chain(const std::string& order, const stichwort::Paramet
         throw std::runtime_error("the chain interface has no embedRange without callbacks");
 #elif CB_MASK == 1
     if (order == "k")
-        return P.withKernel(K).embedRange(b, e);
+        return FINISH(P.withKernel(K));
 #elif CB_MASK == 2
     if (order == "d")
-        return P.withDistance(D).embedRange(b, e);
+        return FINISH(P.withDistance(D));
 #elif CB_MASK == 4
     if (order == "f")
-        return P.withFeatures(F).embedRange(b, e);
+        return FINISH(P.withFeatures(F));
 #elif CB_MASK == 3
     if (order == "kd")
-        return P.withKernel(K).withDistance(D).embedRange(b, e);
+        return FINISH(P.withKernel(K).withDistance(D));
     if (order == "dk")
-        return P.withDistance(D).withKernel(K).embedRange(b, e);
+        return FINISH(P.withDistance(D).withKernel(K));
 #elif CB_MASK == 5
     if (order == "kf")
-        return P.withKernel(K).withFeatures(F).embedRange(b, e);
+        return FINISH(P.withKernel(K).withFeatures(F));
     if (order == "fk")
-        return P.withFeatures(F).withKernel(K).embedRange(b, e);
+        return FINISH(P.withFeatures(F).withKernel(K));
 #elif CB_MASK == 6
     if (order == "df")
-        return P.withDistance(D).withFeatures(F).embedRange(b, e);
+        return FINISH(P.withDistance(D).withFeatures(F));
     if (order == "fd")
-        return P.withFeatures(F).withDistance(D).embedRange(b, e);
+        return FINISH(P.withFeatures(F).withDistance(D));
 #elif CB_MASK == 7
     if (order == "kdf")
-        return P.withKernel(K).withDistance(D).withFeatures(F).embedRange(b, e);
+        return FINISH(P.withKernel(K).withDistance(D).withFeatures(F));
     if (order == "kfd")
-        return P.withKernel(K).withFeatures(F).withDistance(D).embedRange(b, e);
+        return FINISH(P.withKernel(K).withFeatures(F).withDistance(D));
     if (order == "dkf")
-        return P.withDistance(D).withKernel(K).withFeatures(F).embedRange(b, e);
+        return FINISH(P.withDistance(D).withKernel(K).withFeatures(F));
     if (order == "dfk")
-        return P.withDistance(D).withFeatures(F).withKernel(K).embedRange(b, e);
+        return FINISH(P.withDistance(D).withFeatures(F).withKernel(K));
     if (order == "fkd")
-        return P.withFeatures(F).withKernel(K).withDistance(D).embedRange(b, e);
+        return FINISH(P.withFeatures(F).withKernel(K).withDistance(D));
     if (order == "fdk")
-        return P.withFeatures(F).withDistance(D).withKernel(K).embedRange(b, e);
+        return FINISH(P.withFeatures(F).withDistance(D).withKernel(K));
 #endif
     throw std::runtime_error("attachment order '" + order + "' is not a permutation of this binary's callbacks");
 }
@@ -217,7 +223,7 @@ int main()
         for (int i = 0; i < N; i++)
             idx[i] = i;
 
-        std::string outcome, what;
+        std::string outcome, what, emb;
         g.k = g.d = g.f = 0;
         g.stop = f.count("stop") && f["stop"] == "1";
         g.throwing = f.count("throwcb") ? f["throwcb"] : "";
@@ -230,16 +236,36 @@ int main()
             stichwort::ParametersSet set = vfront::make_set(f.count("kw") ? f["kw"] : "");
             universal_callback K{&X, 'k'}, Dc{&X, 'd'}, F{&X, 'f'};
             std::string via = f.count("via") ? f["via"] : "direct";
+            TapkeeOutput result;
             if (via.compare(0, 6, "chain:") == 0)
-                via_chain(via.substr(6), set, idx.begin(), idx.end(), K, Dc, F);
+                result = via_chain(via.substr(6), set, idx.begin(), idx.end(), idx, false, K, Dc, F);
+            else if (via.compare(0, 11, "chainusing:") == 0)
+                result = via_chain(via.substr(11), set, idx.begin(), idx.end(), idx, true, K, Dc, F);
             else
             {
                 auto kcb = pick<(CB_MASK & 1) != 0, dummy_kernel_callback<IndexType>>::make(K);
                 auto dcb = pick<(CB_MASK & 2) != 0, dummy_distance_callback<IndexType>>::make(Dc);
                 auto fcb = pick<(CB_MASK & 4) != 0, dummy_features_callback<IndexType>>::make(F);
-                tapkee::embed(idx.begin(), idx.end(), kcb, dcb, fcb, set);
+                result = tapkee::embed(idx.begin(), idx.end(), kcb, dcb, fcb, set);
             }
             outcome = "ok";
+            if (f.count("emb") && f["emb"] == "1")
+            {
+                // shape and FNV-1a digest of the embedding's bytes (row-major)
+                unsigned long long h = 1469598103934665603ULL;
+                for (IndexType i = 0; i < result.embedding.rows(); i++)
+                    for (IndexType j = 0; j < result.embedding.cols(); j++)
+                    {
+                        double x = result.embedding(i, j);
+                        unsigned char bytes[sizeof x];
+                        std::memcpy(bytes, &x, sizeof x);
+                        for (unsigned char c : bytes)
+                            h = (h ^ c) * 1099511628211ULL;
+                    }
+                char buf[96];
+                snprintf(buf, sizeof buf, " emb=%ldx%ld:%016llx", (long)result.embedding.rows(), (long)result.embedding.cols(), h);
+                emb = buf;
+            }
         }
         catch (const reached& r)
         {
@@ -304,7 +330,7 @@ int main()
         }
         if (g.routes.empty())
             o << "-";
-        o << " # raw=" << g.k << "," << g.d << "," << g.f;
+        o << " # raw=" << g.k << "," << g.d << "," << g.f << emb;
         if (!what.empty())
         {
             for (auto& c : what)
